@@ -5,7 +5,9 @@ package bridge
 import (
 	"fmt"
 	"math"
+	"regexp"
 	"sort"
+	"strconv"
 	"strings"
 
 	"github.com/hneemann/iterator"
@@ -274,6 +276,9 @@ func equal(in *cmpCtx, want ref.Value, got value.Value, path string) (bool, stri
 	case string:
 		if g, ok := got.(value.String); ok && string(g) == w {
 			return true, ""
+		} else if ok && in.tol && stringsEqualTol(w, string(g)) {
+			// the string form of a float that differs in the last places (regrouped constant operands)
+			return true, ""
 		}
 	case bool:
 		if g, ok := got.(value.Bool); ok && bool(g) == w {
@@ -435,4 +440,27 @@ func CompareOutcome(wv ref.Value, we *ref.Err, readAheadErr bool, got Outcome) (
 		return Unspecified, "the reference value could not be evaluated again for the comparison (budget)"
 	}
 	return Agree, ""
+}
+
+var numberRe = regexp.MustCompile(`-?[0-9]+(\.[0-9]+)?([eE][+-]?[0-9]+)?`)
+
+// stringsEqualTol: equal text in which the numbers may differ by a relative 1e-12.
+func stringsEqualTol(a, b string) bool {
+	na, nb := numberRe.FindAllStringIndex(a, -1), numberRe.FindAllStringIndex(b, -1)
+	if len(na) != len(nb) || len(na) == 0 {
+		return false
+	}
+	pa, pb := 0, 0
+	for i := range na {
+		if a[pa:na[i][0]] != b[pb:nb[i][0]] {
+			return false
+		}
+		x, e1 := strconv.ParseFloat(a[na[i][0]:na[i][1]], 64)
+		y, e2 := strconv.ParseFloat(b[nb[i][0]:nb[i][1]], 64)
+		if e1 != nil || e2 != nil || math.Abs(x-y) > 1e-12*math.Max(math.Abs(x), math.Abs(y)) {
+			return false
+		}
+		pa, pb = na[i][1], nb[i][1]
+	}
+	return a[pa:] == b[pb:]
 }
